@@ -65,6 +65,10 @@ pub struct PlaceCase {
     /// that it reports as installed must be reached
     #[serde(default)]
     pub mprotect_fail_at: u8,
+    /// the whole case runs from tear-down code executed while the thread unwinds from a failed
+    /// test body (`std::thread::panicking()` is true throughout)
+    #[serde(default)]
+    pub in_teardown: bool,
 }
 
 #[derive(Serialize, Deserialize, Clone, Debug, Default)]
@@ -250,6 +254,14 @@ fn execute_async(which: u8, callers: u8) -> PlaceObs {
 
 /// Worker side.
 pub fn execute(c: &PlaceCase) -> PlaceObs {
+    if c.in_teardown {
+        crate::worker::while_unwinding(|| execute_inner(c))
+    } else {
+        execute_inner(c)
+    }
+}
+
+fn execute_inner(c: &PlaceCase) -> PlaceObs {
     let mut o = PlaceObs { text: text_range(), ..Default::default() };
     ip::plan_reset();
     ip::log_clear();
@@ -673,6 +685,10 @@ pub fn strategy_sel(only_async: bool) -> impl Strategy<Value = PlaceCase> {
             TargetSel::Synth { page, .. } if (page >> 50) % 8 == 0 => 1 + ((page >> 53) % 3) as u8,
             _ => 0,
         };
-        PlaceCase { target, tramp, fake, callers, prior, early, sibling_first, mprotect_fail_at }
+        PlaceCase { target, tramp, fake, callers, prior, early, sibling_first, mprotect_fail_at, in_teardown: false }
     })
+    .prop_flat_map(|c| (Just(c), prop::bool::weighted(0.07)).prop_map(|(mut c, t)| {
+        c.in_teardown = t;
+        c
+    }))
 }
